@@ -174,6 +174,8 @@ pub struct FaultPlan {
     pub cut_at_time: Option<Us>,
     /// Everything *to* these addresses is dropped from the given time on (peer vanished).
     pub vanished: BTreeMap<SocketAddr, Us>,
+    /// The address vanishes when the global send index reaches this value.
+    pub vanish_at_index: Option<(u64, SocketAddr)>,
     /// Custom override, consulted first. `Some(fate)` decides; `None` falls through.
     pub filter: Option<Filter>,
 }
@@ -207,6 +209,7 @@ impl FaultPlan {
             cut_at_index: None,
             cut_at_time: None,
             vanished: BTreeMap::new(),
+            vanish_at_index: None,
             filter: None,
         }
     }
@@ -261,6 +264,11 @@ impl FaultPlan {
         if let Some(c) = self.cut_at_index {
             if ctx.index >= c {
                 return Fate::Drop("cut");
+            }
+        }
+        if let Some((k, addr)) = self.vanish_at_index {
+            if ctx.index >= k {
+                self.vanished.entry(addr).or_insert(ctx.t);
             }
         }
         if let Some(c) = self.cut_at_time {
